@@ -10,6 +10,7 @@ def P : Params := Kevo.Gen.tableParams
 structure St where
   blk : Option Block.Iter := none
   file : Bytes := []
+  orig : Bytes := []     -- the unaltered table as written
   rd : Option Table.Reader := none
   tit : Option Table.TIter := none
   tstatus : String := "ok"
@@ -94,14 +95,16 @@ def step (s : St) (ws : List String) : St × String :=
     match parseEntries rest with
     | none => (s, "bad-op")
     | some es =>
-      if es.isEmpty || !Block.strictAsc es then ({ s with rd := none, tit := none, file := [] }, "err")
+      if es.isEmpty || !Block.strictAsc es then ({ s with rd := none, tit := none, file := [], orig := [] }, "err")
       else
         let file := Table.encode P xxhash64 fnv1a64 0 (bloom == "bloom=1") es
         let (s', o) := openSt s file
-        (s', s!"{o} {file.length} {crc32 (canonical file)}")
+        ({ s' with orig := file }, s!"{o} {file.length} {crc32 (canonical file)}")
   | ["talter", off, x] => match off.toNat?, x.toNat? with
     | some o, some xv =>
-      let file := s.file.set o (UInt8.ofNat ((s.file.getD o 0).toNat ^^^ xv))
+      if s.orig.isEmpty then (s, "closed") else
+      let o := o % s.orig.length
+      let file := s.orig.set o (UInt8.ofNat ((s.orig.getD o 0).toNat ^^^ xv))
       openSt s file
     | _, _ => (s, "bad-op")
   | ["tnew"] => match s.tit with
